@@ -32,15 +32,21 @@ theorem zn_frame {s s' : St} {t : Tid} {e : Ev} (hS : Step s t e s') (hnd : inDt
     · rfl
 
 /-- how a step changes the list -/
-theorem lst_cases {s s' : St} {t : Tid} {e : Ev} (hS : Step s t e s') (hnd : inDtor (s.pc t) = false) :
+theorem lst_cases {s s' : St} {t : Tid} {e : Ev} (hi : Inv s) (hS : Step s t e s') (hnd : inDtor (s.pc t) = false) :
     s'.lst = s.lst ∨ (∀ x, x ∈ s.lst → x ∈ s'.lst) ∨
-      (∃ c o p x, s'.lst = s.lst.erase c ∧ s'.pc t = .eFix c o p x) := by
+      (∃ c o p x z, s'.lst = s.lst.erase c ∧ s'.pc t = .eFix c o p x z ∧ (s'.recs z).znode = some c) := by
+  have held := hi.d.held t
+  simp only [dview_vpc] at held
   cases hS <;> first | (left; rfl) | (left; simp; done) | no_dtor | skip
   case pE1 => right; left; intro x hx; simp [hx]
   case pF3 => right; left; intro x hx; simp [hx]
   case pB2 => right; left; intro x hx; simp [hx]
-  case eUnlPrev c orig pp x o hpc ho => right; right; exact ⟨c, orig, some pp, x, rfl, by simp⟩
-  case eUnlHead c orig x o hpc ho => right; right; exact ⟨c, orig, none, x, rfl, by simp⟩
+  case eUnlPrev c orig pp x z o hpc ho =>
+    rw [hpc] at held; simp only [DView, HeldP, dview_zn] at held
+    right; right; exact ⟨c, orig, some pp, x, z, rfl, by simp, by simpa using held.1⟩
+  case eUnlHead c orig x z o hpc ho =>
+    rw [hpc] at held; simp only [DView, HeldP, dview_zn] at held
+    right; right; exact ⟨c, orig, none, x, z, rfl, by simp, by simpa using held.1⟩
 
 /-- an erase in progress stays in progress until its zombie record is pushed -/
 theorem pend_step {s s' : St} {t : Tid} {e : Ev} (hi : Inv s) (hS : Step s t e s') (hnd : inDtor (s.pc t) = false)
@@ -93,13 +99,13 @@ theorem safe_step {s s' : St} {t : Tid} {e : Ev} (hi : Inv s) (hS : Step s t e s
   rcases h with g | ⟨u, g⟩ | ⟨z, g1, g2, g3⟩
   · -- linked
     simp only [eview_lst] at g
-    rcases lst_cases hS hnd with h1 | h1 | ⟨c, o, p, y, h1, h2⟩
+    rcases lst_cases hi hS hnd with h1 | h1 | ⟨c, o, p, y, z, h1, h2, h3⟩
     · left; left; simp only [eview_lst, h1]; exact g
     · left; left; simp only [eview_lst]; exact h1 d g
     · by_cases hdc : d = c
       · subst hdc
         left; right; left
-        exact ⟨t, by simp [h2, EView, pendNode]⟩
+        exact ⟨t, by simp [h2, EView, pendNode, h3]⟩
       · left; left; simp only [eview_lst, h1]; exact (List.mem_erase_of_ne hdc).2 g
   · -- erase in progress
     simp only [eview_vpc] at g
